@@ -6,6 +6,11 @@ from numba import njit, prange, types
 
 CONST_C_VAL = 299792458.0  # Speed of light in m/s (astropy.constants.c.value)
 
+# Fast-math for the mean decimators without 'arcp': the division by the group size
+# must stay a true division, a hoisted reciprocal turns exact integer means m into
+# m - epsilon, which truncate to m - 1 for integer outputs.
+MEAN_FASTMATH = {"nnan", "ninf", "nsz", "reassoc", "contract", "afn"}
+
 
 @njit("void(u1[::1], u1[::1])", cache=True, fastmath=True, locals={"pos": types.i8})
 def unpack1_8_big(array: np.ndarray, unpacked: np.ndarray) -> None:
@@ -163,7 +168,7 @@ def pack4_8_little(array: np.ndarray, packed: np.ndarray) -> None:
         packed[ii] = (array[pos + 1] << 4) | array[pos + 0]
 
 
-@njit(cache=True, fastmath=True, locals={"temp": types.f8})
+@njit(cache=True, fastmath=MEAN_FASTMATH, locals={"temp": types.f8})
 def downsample_1d_mean(array: np.ndarray, factor: int) -> np.ndarray:
     """Downsample a 1D array by averaging over bins.
 
@@ -194,7 +199,7 @@ def downsample_1d_mean(array: np.ndarray, factor: int) -> np.ndarray:
     return result
 
 
-@njit(cache=True, fastmath=True, locals={"temp": types.f8})
+@njit(cache=True, fastmath=MEAN_FASTMATH, locals={"temp": types.f8})
 def downsample_2d_mean_flat(
     array: np.ndarray,
     factor1: int,
@@ -246,13 +251,13 @@ def downsample_2d_mean_flat(
 downsample_1d_mean_parallel = njit(
     downsample_1d_mean.py_func,
     parallel=True,
-    fastmath=True,
+    fastmath=MEAN_FASTMATH,
     locals={"temp": types.f8},
 )
 downsample_2d_mean_parallel = njit(
     downsample_2d_mean_flat.py_func,
     parallel=True,
-    fastmath=True,
+    fastmath=MEAN_FASTMATH,
     locals={"temp": types.f8},
 )
 
